@@ -25,6 +25,8 @@ from rdflib.compare import graph_diff, isomorphic, similar, to_canonical_graph, 
 from rdflib.paths import AlternativePath, InvPath, MulPath, NegatedPath, SequencePath  # noqa: E402
 
 from rdflib.collection import Collection  # noqa: E402
+from rdflib.plugins.stores.memory import Memory  # noqa: E402
+from rdflib.store import Store  # noqa: E402
 from rdflib.graph import ReadOnlyGraphAggregate  # noqa: E402
 from rdflib.namespace import RDF, RDFS  # noqa: E402
 
@@ -494,9 +496,143 @@ DS_ONLY = {n for n, _ in READS if n.startswith("ds_")}
 SKIP_RAND = True  # RAND()/NOW()/UUID()/BNODE() queries are outside the property's repeatability clause
 
 
+# ------------------------------------------------------------------ the recording proxy store
+# codes as in coq/Purity/Model.v (M_TRIPLES ...): 1-8 read methods, 20/21 the two justified benign writes, 30+ writes
+CALL_CODE = {"triples": 1, "triples_choices": 2, "contexts": 3, "__len__": 4, "namespaces": 5, "namespace": 6, "prefix": 7,
+             "query": 8, "bind": 20, "add_graph(default)": 21,
+             "add": 30, "addN": 31, "remove": 32, "add_graph": 33, "remove_graph": 34, "commit": 35, "rollback": 36,
+             "open": 37, "close": 38, "destroy": 39, "update": 40, "gc": 41, "create": 42, "__setattr__": 43}
+OTHER_CODE = 44
+
+
+class RecordingStore(Store):
+    """A Store that delegates everything to a real Memory store and writes down the name of every method the layers above
+    call on it (no hook in /repo: Graph/Dataset/serialisers/the SPARQL engine only ever see this object)."""
+
+    def __init__(self, inner, default_id):
+        Store.__init__(self)
+        d = self.__dict__
+        d["_inner"], d["_log"], d["_default_key"] = inner, [], tkey(default_id)
+        d["context_aware"], d["formula_aware"] = inner.context_aware, inner.formula_aware
+        d["graph_aware"], d["transaction_aware"] = inner.graph_aware, inner.transaction_aware
+        d["_armed"] = True
+
+    def _rec(self, name):
+        self.__dict__["_log"].append(name)
+
+    def __setattr__(self, name, value):
+        if self.__dict__.get("_armed"):
+            self._rec("__setattr__")
+        object.__setattr__(self, name, value)
+
+    def __getattr__(self, name):  # anything not spelled out below
+        if name.startswith("__") or "_inner" not in self.__dict__:
+            raise AttributeError(name)
+        self._rec("other:" + name)
+        return getattr(self.__dict__["_inner"], name)
+
+    # reads
+    def triples(self, triple_pattern, context=None):
+        self._rec("triples")
+        return self._inner.triples(triple_pattern, context)
+
+    def triples_choices(self, triple, context=None):
+        self._rec("triples_choices")
+        return self._inner.triples_choices(triple, context)
+
+    def contexts(self, triple=None):
+        self._rec("contexts")
+        return self._inner.contexts(triple)
+
+    def __len__(self, context=None):
+        self._rec("__len__")
+        return self._inner.__len__(context)
+
+    def namespaces(self):
+        self._rec("namespaces")
+        return self._inner.namespaces()
+
+    def namespace(self, prefix):
+        self._rec("namespace")
+        return self._inner.namespace(prefix)
+
+    def prefix(self, namespace):
+        self._rec("prefix")
+        return self._inner.prefix(namespace)
+
+    def query(self, *a, **kw):
+        self._rec("query")
+        return self._inner.query(*a, **kw)
+
+    # the prefix table
+    def bind(self, prefix, namespace, override=True):
+        self._rec("bind")
+        return self._inner.bind(prefix, namespace, override)
+
+    # writes
+    def add_graph(self, graph):
+        self._rec("add_graph(default)" if tkey(graph.identifier) == self._default_key else "add_graph")
+        return self._inner.add_graph(graph)
+
+    def add(self, triple, context, quoted=False):
+        self._rec("add")
+        return self._inner.add(triple, context, quoted)
+
+    def addN(self, quads):  # noqa: N802
+        self._rec("addN")
+        return self._inner.addN(quads)
+
+    def remove(self, triple, context=None):
+        self._rec("remove")
+        return self._inner.remove(triple, context)
+
+    def remove_graph(self, graph):
+        self._rec("remove_graph")
+        return self._inner.remove_graph(graph)
+
+    def update(self, *a, **kw):
+        self._rec("update")
+        return self._inner.update(*a, **kw)
+
+    def commit(self):
+        self._rec("commit")
+        return self._inner.commit()
+
+    def rollback(self):
+        self._rec("rollback")
+        return self._inner.rollback()
+
+    def open(self, configuration, create=False):
+        self._rec("open")
+        return self._inner.open(configuration, create)
+
+    def close(self, commit_pending_transaction=False):
+        self._rec("close")
+        return self._inner.close(commit_pending_transaction)
+
+    def destroy(self, configuration):
+        self._rec("destroy")
+        return self._inner.destroy(configuration)
+
+    def gc(self):
+        self._rec("gc")
+        return self._inner.gc()
+
+    def create(self, configuration):
+        self._rec("create")
+        return self._inner.create(configuration)
+
+
+def call_codes(log):
+    """distinct (code, method name) pairs of a log, sorted"""
+    return sorted({(CALL_CODE.get(n, OTHER_CODE), n) for n in log})
+
+
 class PWorld(World):
     def __init__(self, is_ds, du):
-        super().__init__(is_ds, [], default_union=du)
+        default_id = rdflib.graph.DATASET_DEFAULT_GRAPH_ID if is_ds else c02.CG_DEFAULT
+        self.inner = Memory()
+        super().__init__(is_ds, [], default_union=du, store=RecordingStore(self.inner, default_id))
         self.du = du
         # a second dataset, with a different set of graphs (IRI-named, bnode-named, an empty known one): reads that take
         # another dataset (patch target=) must leave it alone too
@@ -551,13 +687,13 @@ class PWorld(World):
     def snap(self):
         """quads and graph names, read straight off the store (no front-end method that might write)"""
         quads = []
-        for (s, p, o), ctxs in self.store.triples((None, None, None), None):
+        for (s, p, o), ctxs in self.inner.triples((None, None, None), None):
             cs = list(ctxs)
             if not cs:
                 quads.append([xterm_id(s), xterm_id(p), xterm_id(o), 996])  # in the union only: no graph
             for c in cs:
                 quads.append([xterm_id(s), xterm_id(p), xterm_id(o), self.gid(c)])
-        names = sorted(self.gid(c) for c in self.store.contexts())
+        names = sorted(self.gid(c) for c in self.inner.contexts())
         return [sorted(quads), names]
 
 
@@ -641,13 +777,15 @@ class C13(Suite):
         for name, tgt in case["reads"]:
             g = w.d if tgt == "ds" else Graph(w.store, identifier=w.name(tgt))
             o0 = w.others()
+            del w.store._log[:]
             a1 = run_read(w, g, name)
             mid = w.snap()
             a2 = run_read(w, g, name)
             after = w.snap()
             # the second call must not write either, and neither call may touch the OTHER dataset it was handed
             # (patch target=): both are folded into the flag
-            obs[1].append([mid, bool(same_answer(a1, a2) and after == mid and w.others() == o0)])
+            calls = call_codes(w.store._log)  # before the snapshot below (which reads the inner store anyway)
+            obs[1].append([mid, bool(same_answer(a1, a2) and after == mid and w.others() == o0), [list(c) for c in calls]])
         return obs
 
     def on_timeout(self, case):
@@ -679,7 +817,8 @@ class C13(Suite):
     def coq_obs(self, obs):
         def snap(s):
             return ctuple(clist(c_quad(q) for q in s[0]), clist(cN(x) for x in s[1])) if s else "([], [])"
-        return ctuple(snap(obs[0]), clist(ctuple(snap(s), cbool(b)) for s, b in obs[1]))
+        return ctuple(snap(obs[0]), clist("{| e_snap := " + snap(e[0]) + "; e_same := " + cbool(e[1]) + "; e_calls := "
+                                            + clist(cN(c) for c, _ in e[2]) + " |}" for e in obs[1]))
 
     def nontrivial(self, case, obs):
         return len(obs[0][0]) >= 1 and len(case["reads"]) >= 1
@@ -691,6 +830,9 @@ class C13(Suite):
             nonempty = {q[3] for q in obs[0][0]}
             f["state_has_bnode_named_graph"] = int(bool(nonempty & {3, 4}))
             f["state_has_empty_known_graph"] = int(any(n not in nonempty for n in obs[0][1]))
+        for e in (obs[1] if obs and len(obs) > 1 else []):
+            for code, nm in e[2]:
+                f["store_call_" + nm] = f.get("store_call_" + nm, 0) + 1
         for name, tgt in case["reads"]:
             fam = name.split("_")[0]
             f["read_" + fam] = f.get("read_" + fam, 0) + 1
@@ -728,17 +870,26 @@ SUITES = [C13()]
 TRUSTED = [
     "Coq 8.16.1 kernel and standard library",
     "harness/c13.py: the catalogue of read-only calls, the comparison of two answers (rows and text lines as multisets up to a "
-    "blank-node bijection found by backtracking, graphs by rdflib.compare's internal_hash) and the snapshot read straight off Memory (triples(), contexts())",
-    "for the reads the Coq model treats as opaque (serialisers, SPARQL engine, compare, slicing) purity holds in the model by "
-    "construction: only the snapshot runs speak for them",
+    "blank-node bijection found by backtracking, graphs by rdflib.compare's internal_hash) and the snapshot read straight off "
+    "the inner Memory store (triples(), contexts())",
+    "harness/c13.py RecordingStore: a rdflib.store.Store subclass created by the harness that delegates every method to a real "
+    "Memory store and records its name; Graph/Dataset/serialisers/the SPARQL engine only ever hold this object, so every store "
+    "method a read calls is in the observation (no hook in /repo)",
+    "that the store methods recorded as reads (triples, triples_choices, contexts, __len__, namespaces, namespace, prefix, query) "
+    "behave as the operations of the read-program language of coq/Purity/Model.v: Memory's side is property C01's/C02's tie; "
+    "given that, C13_program_pure / C13_program_repeatable make the purity of an opaque read a consequence of the recorded calls",
+    "a write that bypasses the store API (poking Memory's private dictionaries) is not recorded; the before/after snapshots are for that",
 ]
 ASSUMPTIONS = [
-    "store is rdflib.plugins.stores.memory.Memory; SPARQL_LOAD_GRAPHS is at its default (on): FROM / FROM NAMED dereference "
-    "file:// documents written by the harness under build/c13_docs; the urn: names of the pool cannot be fetched",
+    "store is rdflib.plugins.stores.memory.Memory behind the recording proxy; SPARQL_LOAD_GRAPHS is at its default (on): FROM / "
+    "FROM NAMED dereference file:// documents written by the harness under build/c13_docs; the urn: names of the pool cannot be fetched",
     "queries using RAND/NOW/UUID/BNODE() are not issued (outside the repeatability clause)",
-    "namespace bindings are not part of the observed state (serialisers and qname() may bind prefixes)",
+    "two store calls issued by reads are accepted as benign, each justified in notes/C13.md: bind (prefix table: the property "
+    "speaks of triples, quads and the set of graphs) and add_graph(<the default graph>) (Dataset.graphs()/contexts() re-creating "
+    "the default graph, which the specification counts as always present); every other non-read call is a specification failure",
 ]
 RULE = ("a dataset (Dataset 80% / ConjunctiveGraph 20%, default_union on/off) built from 1-9 valid triples over 1-4 graph "
-        "names (IRI- and bnode-named, empty known graphs, emptied graphs), then 4-10 reads drawn from a catalogue of "
-        f"{len(READS)} read-only calls, each applied to the front end or to a Graph(store, name) view, each called twice; "
+        "names (IRI- and bnode-named, empty known graphs, emptied graphs, optionally an RDF list and an rdf:Seq), then 8-16 reads "
+        f"drawn from a catalogue of {len(READS)} read-only calls, each applied to the front end or to a Graph(store, name) view, "
+        "each called twice behind a store proxy that records every store method called; "
         "distinct by full case content; non-trivial = the state holds at least one quad")
